@@ -131,6 +131,142 @@ Family legacyFamily(const std::string &name, bool thorough)
             [get](uint64_t i) { auto e = get().at(i); return json{{"spec", ms::toJson(*e.first)}, {"legacy", e.second.toJson()}, {"xml1x", ms::xml1x(*e.first, e.second)}, {"xml20", ms::xml20(*e.first, 0)}}; }};
 }
 
+// ------------------------------------------------------------------ family order-*: child order wherever CellML 1.x leaves it open
+// Each order dimension is enumerated over its coupled choices with everything else canonical (the legacy-* families are the product of
+// the spelling choices in canonical order): (A) position of the relationship_ref(s) inside the encapsulation group x the four group
+// forms x both relationship_ref orders; (B) every order of the model's child blocks [RDF, imports, units, components, groups,
+// connections] x with/without a containment group x with/without 1.x-only constructs; (C) every order of the component child kinds
+// [RDF, units, variables, reaction, math] x units inside the component; (D) map_components first / between / last; (E) import
+// children and import elements reversed x model block orders.  Quick takes identity, reverse and all rotations of a permutation
+// dimension, thorough every permutation.
+std::vector<uint64_t> permRanks(size_t n, bool all)
+{
+    std::vector<uint64_t> r;
+    uint64_t f = ms::factorial(n);
+    if (all || f <= 6) { for (uint64_t i = 0; i < f; ++i) r.push_back(i); return r; }
+    std::set<uint64_t> pick;
+    auto rankOf = [&](const std::vector<int> &p) { for (uint64_t i = 0; i < f; ++i) if (ms::unrankPerm(i, int(n)) == p) return i; return uint64_t(0); };
+    std::vector<int> id;
+    for (size_t i = 0; i < n; ++i) id.push_back(int(i));
+    for (size_t k = 0; k < n; ++k) { auto p = id; std::rotate(p.begin(), p.begin() + long(k), p.end()); pick.insert(rankOf(p)); }
+    auto rev = id; std::reverse(rev.begin(), rev.end()); pick.insert(rankOf(rev));
+    return {pick.begin(), pick.end()};
+}
+std::vector<ms::Legacy> orderVariants(const ms::Spec &s, bool thorough)
+{
+    std::vector<ms::Legacy> out;
+    for (int ns = ms::hasImports(s) ? 1 : 0; ns < 2; ++ns) {
+        ms::Legacy base; base.ns = ns;
+        bool home = false;
+        for (size_t i = 0; i < s.units.size(); ++i) if (ms::unitsHome(s, i) >= 0) home = true;
+        if (ms::hasHierarchy(s)) { // (A)
+            for (int group = 0; group < 4; ++group) for (int relSwap = 0; relSwap < (group == 3 ? 2 : 1); ++relSwap) {
+                std::vector<int> pos = {0, 1};
+                if (ms::encapsulationTrees(s) >= 2) pos.push_back(2);
+                if (group == 3) { pos.push_back(3); pos.push_back(4); }
+                for (int p : pos) {
+                    if (group == 3 && relSwap && p >= 3) continue; // the split positions name both places already
+                    ms::Legacy l = base; l.group = group; l.relSwap = relSwap; l.relPos = p; out.push_back(l);
+                }
+            }
+        }
+        for (int dropped = 0; dropped < 2; ++dropped) for (int group = 0; group < (ms::hasHierarchy(s) ? 2 : 1); ++group) { // (B)
+            ms::Legacy l = base; l.dropped = dropped; l.group = group;
+            for (auto r : permRanks(ms::modelBlocks(s, l).size(), thorough)) { if (!r && !dropped && !group) continue; l.modelOrder = int(r); out.push_back(l); }
+        }
+        for (int dropped = 0; dropped < 2; ++dropped) for (int place = 0; place < (home ? 2 : 1); ++place) { // (C)
+            ms::Legacy l = base; l.dropped = dropped; l.unitsPlace = place;
+            for (auto r : permRanks(ms::componentKinds(s, l).size(), thorough)) { if (!r) continue; l.compOrder = int(r); out.push_back(l); }
+        }
+        if (!s.conns.empty()) for (int relPos = 0; relPos < (ms::hasHierarchy(s) ? 2 : 1); ++relPos) { // (D)
+            ms::Legacy l = base; l.mapcomp = 2; l.relPos = relPos; out.push_back(l);
+        }
+        if (ms::hasImports(s)) { // (E)
+            ms::Legacy l = base; l.importOrder = 1;
+            for (auto r : permRanks(ms::modelBlocks(s, l).size(), thorough)) { l.modelOrder = int(r); out.push_back(l); }
+        }
+    }
+    return out;
+}
+// two feature-rich specs: two encapsulation trees, two map_variables in one connection, units used by one component only, math,
+// ids everywhere; the second also imports units and a component through one shared <import>
+std::vector<ms::Spec> richSpecs()
+{
+    ms::Spec s;
+    s.family = "rich";
+    s.id = "i_m"; s.eid = "i_enc";
+    ms::UnitsDef ua; ua.name = "ua"; ua.id = "i_ua"; ua.kids.push_back({"second", "milli", 1.0, 1.0, "i_unit"});
+    s.units.push_back(ua);
+    auto var = [](const char *n, const char *u, const std::string &id) { ms::Var v; v.name = n; v.units = u; v.id = id; return v; };
+    ms::Comp ca; ca.name = "ca"; ca.id = "i_ca"; ca.eid = "e_ca"; ca.vars = {var("x", "second", "i_ax"), var("y", "second", "i_ay")};
+    ca.math = {ms::MathBlock{{ms::Eq{"x", "1.5", "second"}}}};
+    ms::Comp cb; cb.name = "cb"; cb.parent = 0; cb.eid = "e_cb"; cb.vars = {var("x", "second", ""), var("y", "second", "")};
+    ms::Comp cc; cc.name = "cc"; cc.id = "i_cc"; cc.eid = "e_cc"; cc.vars = {var("x", "second", ""), var("z", "ua", "i_cz")};
+    ms::Comp cd; cd.name = "cd"; cd.parent = 2; cd.eid = "e_cd"; cd.vars = {var("x", "second", "i_dx")};
+    s.comps = {ca, cb, cc, cd};
+    s.conns = {{0, 0, 1, 0, "i_m1"}, {0, 1, 1, 1, "i_m2"}, {2, 0, 3, 0, ""}, {0, 0, 2, 0, "i_m3"}};
+    s.cids[{0, 1}] = "i_c1"; s.cids[{0, 2}] = "i_c2";
+    ms::computeInterfaces(s);
+    ms::Spec t = s;
+    ms::UnitsDef ui; ui.name = "ui"; ui.imp.on = true; ui.imp.href = "lib.cellml"; ui.imp.ref = "src_u"; ui.imp.src = 0;
+    t.units.push_back(ui);
+    ms::Comp ci; ci.name = "ci"; ci.imp.on = true; ci.imp.href = "lib.cellml"; ci.imp.ref = "src_c"; ci.imp.src = 0;
+    ms::Comp cj; cj.name = "cj"; cj.id = "i_cj"; cj.imp.on = true; cj.imp.href = "lib2.cellml"; cj.imp.ref = "src_j"; cj.imp.iid = "i_imp2";
+    t.comps.push_back(ci); t.comps.push_back(cj);
+    return {s, t};
+}
+struct OrderSpace
+{
+    std::vector<ms::Spec> specs;
+    std::vector<std::vector<ms::Legacy>> variants;
+    std::vector<uint64_t> start;
+    uint64_t total = 0;
+    void add(ms::Spec s, bool thorough)
+    {
+        auto v = orderVariants(s, thorough);
+        if (v.empty()) return;
+        start.push_back(total);
+        total += v.size();
+        specs.push_back(std::move(s));
+        variants.push_back(std::move(v));
+    }
+};
+std::shared_ptr<OrderSpace> makeOrderSpace(bool thorough)
+{
+    auto sp = std::make_shared<OrderSpace>();
+    for (auto &s : richSpecs()) sp->add(s, thorough);
+    ms::HParams h;
+    h.kmax = 3; h.smax = 1; h.perms = false; h.flips = false; h.nameOrders = false; h.twoVars = thorough;
+    h.idpats = {3};
+    auto fh = ms::familyH("h", h);
+    for (uint64_t i = 0; i < fh.count(); ++i) sp->add(fh.at(i), thorough);
+    auto fv = ms::familyV("v");
+    for (uint64_t i = 0; i < fv.count(); i += thorough ? 1 : 7) sp->add(fv.at(i), thorough);
+    auto fi = ms::familyI("i-q", false);
+    for (uint64_t i = 0; i < fi.count(); i += thorough ? 1 : 3) sp->add(fi.at(i), thorough);
+    auto fm = ms::familyM("m");
+    for (uint64_t i = 0; i < fm.count(); ++i) sp->add(fm.at(i), thorough);
+    return sp;
+}
+Family orderFamily(const std::string &name, bool thorough)
+{
+    auto cell = std::make_shared<std::shared_ptr<OrderSpace>>();
+    auto get = [cell, thorough]() -> const OrderSpace & { if (!*cell) *cell = makeOrderSpace(thorough); return **cell; };
+    auto at = [get](uint64_t i) {
+        const OrderSpace &o = get();
+        size_t k = size_t(std::upper_bound(o.start.begin(), o.start.end(), i) - o.start.begin()) - 1;
+        return std::pair<const ms::Spec *, ms::Legacy>{&o.specs[k], o.variants[k][size_t(i - o.start[k])]};
+    };
+    return {name, [get] { return get().total; },
+            [at](uint64_t i, Ctx &c) {
+                auto e = at(i);
+                json what = {{"family", e.first->family}, {"legacy", e.second.toJson()}};
+                if (c.verbose) what["spec"] = ms::toJson(*e.first);
+                judgePair(c, ms::xml1x(*e.first, e.second), ms::xml20(*e.first, 0), e.second.ns ? "1.1" : "1.0", e.first->valid, "c14:order:" + e.first->family.substr(0, 1), "", what);
+            },
+            [at](uint64_t i) { auto e = at(i); return json{{"spec", ms::toJson(*e.first)}, {"legacy", e.second.toJson()}, {"xml1x", ms::xml1x(*e.first, e.second)}, {"xml20", ms::xml20(*e.first, 0)}}; }};
+}
+
 // ------------------------------------------------------------------ family extras: one legacy construct at a time on a fixed document
 struct Probe
 {
@@ -253,6 +389,6 @@ Family extrasFamily()
 
 int main(int argc, char **argv)
 {
-    std::vector<Family> fams = {legacyFamily("legacy-q", false), legacyFamily("legacy-t", true), extrasFamily()};
+    std::vector<Family> fams = {legacyFamily("legacy-q", false), legacyFamily("legacy-t", true), orderFamily("order-q", false), orderFamily("order-t", true), extrasFamily()};
     return harnessMain(argc, argv, fams);
 }
